@@ -184,7 +184,8 @@ static Input gen_input(Tape &t) {
   Tape lt(lb), et(eb);
   gp::GenCfg cfg;
   cfg.user_macros = mode == 1 || t.chance(1, 3);
-  cfg.max_stmts = 18;
+  cfg.arith_heavy = mode == 1 && t.chance(1, 2);
+  cfg.max_stmts = cfg.arith_heavy ? 10 : 18;
   gp::Gen g(t, cfg);
   gp::Program p = g.generate();
   gp::normalise(p);
@@ -224,11 +225,41 @@ static bool explosive(const Input &in) {
 
 static void prop_c18(Tape &t, Result &r) {
   if (g_req < 0) start_server();  // before this process has compiled anything
-  int n = 3 + (int)t.pick(6);
+  int n = 2 + (int)t.pick(5);
   int nthreads = 1 + (int)t.weighted({2, 3, 2, 1, 1, 1, 1, 1});
   std::vector<Input> inputs;
   for (int i = 0; i < n; i++) {
-    Input in = gen_input(t);
+    Input in;
+    if (!inputs.empty() && t.chance(1, 3)) {
+      // a near copy of the previous input: one numeric token (a literal, a priority) or one identifier changed -
+      // what an editor-recompile cycle produces, and what a cache keyed on too little mishandles
+      in = inputs.back();
+      std::vector<std::string> names;
+      for (auto &f : in.files) names.push_back(f.first);
+      std::string victim = names[t.pick((unsigned)names.size())];
+      std::vector<ref::Tok> toks = ref::lex_text(in.files[victim], victim);
+      std::vector<size_t> nums, ids, prios;
+      for (size_t k = 0; k < toks.size(); k++) {
+        if (toks[k].k == ref::K::INT) nums.push_back(k);
+        if (toks[k].k == ref::K::INT && k > 0 && toks[k - 1].k == ref::K::PRIORITY) prios.push_back(k);
+        if (toks[k].k == ref::K::ID) ids.push_back(k);
+      }
+      if (!prios.empty() && t.chance(1, 2)) nums = prios;  // a changed macro priority is the most consequential one-number edit
+      std::vector<std::string> texts;
+      for (auto &tk : toks) texts.push_back(tk.text);
+      if (!nums.empty() && t.chance(2, 3)) {
+        size_t k = nums[t.pick((unsigned)nums.size())];
+        texts[k] = std::to_string((atoi(texts[k].c_str()) + 1 + (int)t.pick(17)) % 40);
+        in.kind += "+number-changed";
+      } else if (!ids.empty()) {
+        size_t k = ids[t.pick((unsigned)ids.size())];
+        texts[k] = ids.size() > 1 ? texts[ids[t.pick((unsigned)ids.size())]] : "x9";
+        in.kind += "+identifier-changed";
+      }
+      in.files[victim] = gm::join(texts, 8);
+      r.cls("near-copy-of-previous-input");
+    } else
+      in = gen_input(t);
     if (explosive(in)) continue;
     inputs.push_back(in);
   }
